@@ -208,6 +208,11 @@ def run(ctx):
             ctx.ob("R-C01.5", fn, "journaled-operation-is-applied", not rets2,
                    "after the append every success path applies the operation to the tree" if not rets2 else "the operation can be journaled and acknowledged without being applied to the tree", nontrivial=bool(rets2))
 
+    # ---- cross-cutting disciplines (rules/discipline.py)
+    from .. import discipline as D
+    # a read that fails must say so (a swallowed error in len()/is_empty() is a wrong answer)
+    D.error_discipline(ctx, "R-C01.8", scope=lambda f: f.startswith(("readable::", "<snapshot::", "snapshot::", "iter::", "<iter::", "guard::", "keyspace::Keyspace::")))
+
     # ---- borrowed obligations (mechanisms owned by other properties that this property's verdict also rests on)
     # journal rotation is invisible only if no sealed journal is deleted while a keyspace still needs it
     ctx.borrow("C10", ["R-C10.1"], "R-C01.6")
